@@ -1,5 +1,6 @@
 import Pendulum.Proofs.AddDurCal
 import Pendulum.Proofs.C04
+import Pendulum.Proofs.DTArithGen
 import Pendulum.Props.C02
 /-! # C04 — calendar-unit arithmetic follows the wall clock with end-of-month clamping
 
@@ -184,5 +185,75 @@ theorem date_sub_duration (n : Int) (s : Sig) :
 example :
     dateSubtract 19813 0 1 0 0 = .ok 19782 ∧
     dateAddDur 19753 (mkDur ⟨0, 1, 0, 0, 36, 0, 0, 0⟩) = .ok 19783 := by decide +kernel
+
+/-! ### the entry points themselves, regenerated from `src/pendulum/datetime.py` / `date.py` on every run
+(`tools/gen_dtarith.py` → `Gen/DTArith.lean`; callee links `DTArithGen.Linked` / `DLinked`, satisfiable by
+`linked_instOf` / `dlinked_dinstOf`) -/
+open Pendulum.Gen.DTArith Pendulum.DTArithGen
+
+/-- **`DateTime.add` with a calendar unit, from the source**: when any of years/months/weeks/days is non-zero the
+    translated method never subtracts the offset, hands the instance's own fields to `add_duration` and ends in
+    `create(..., tz=self.tz)` with `create`'s default `fold=1` — the calendar specification on the wall clock followed by
+    the construction rules in the value's own zone, for every value and every amount -/
+theorem add_calendar_source_eq_model (I : Inst) (v : V) (hl : Linked I v) (hv : inRange v.w = true)
+    (y mo wk d h mi : Int) (s : Sec) (us : Int) (hvar : y ≠ 0 ∨ mo ≠ 0 ∨ wk ≠ 0 ∨ d ≠ 0) :
+    interp v (dt_add I y mo wk d h mi s us) =
+      (match calSpec v.w y mo wk d h mi (secS s) (us + secU s) with
+       | .ok w' => create v.z w' true false
+       | .error .valueError => .error .valueError
+       | .error .overflow => .error .overflow) := by
+  rw [add_eq I v hl hv, ← addCalendar_order v y mo wk d h mi (secS s) (us + secU s) hvar]
+  unfold addChecked
+  have : ¬(y = 0 ∧ mo = 0 ∧ wk = 0 ∧ d = 0 ∧ inRange (v.w - v.offset) = false) := by omega
+  rw [if_neg this]
+
+/-- **`dt + d` / `dt - d` for a Duration, from the source**: `_add_timedelta_` passes `**d._signature` to `add`;
+    `_subtract_timedelta` goes through `_add_timedelta_(-d)` — the model's `addDur` / `subDur` (whenever the start's UTC
+    reading is representable, else OverflowError for a pure clock amount: `addChecked`) -/
+theorem duration_operand_source_eq_model (I : Inst) (v : V) (hl : Linked I v) (hv : inRange v.w = true) (d : Dur)
+    (hu : inRange (v.w - v.offset) = true) :
+    interp v (dt_add_timedelta I (opOfDur d)) = addDur v d ∧
+    interp v (dt_subtract_timedelta I (opOfDur d) (opOfDur (neg d))) = subDur v d := by
+  constructor
+  · rw [add_duration_model I v hl hv, addSigC_eq v _ hu]; rfl
+  · rw [sub_duration_model I v hl hv d _ rfl, addSigC_eq v _ hu]; rfl
+
+/-- **`dt ± iv` for an Interval, from the source**: both methods read the eight components
+    `years, months, weeks, remaining_days, hours, minutes, remaining_seconds, microseconds` and hand them to
+    `add` / `subtract` (no detour through `-iv`, whose components belong to the swapped endpoints) -/
+theorem interval_operand_source_eq_model (I : Inst) (v : V) (hl : Linked I v) (hv : inRange v.w = true) (δ nδ : Operand)
+    (hk : δ.kind = .interval) :
+    interp v (dt_add_timedelta I δ) =
+      addChecked v δ.years δ.months δ.weeks δ.remaining_days δ.hours δ.minutes δ.remaining_seconds δ.microseconds ∧
+    interp v (dt_subtract_timedelta I δ nδ) =
+      addChecked v (-δ.years) (-δ.months) (-δ.weeks) (-δ.remaining_days) (-δ.hours) (-δ.minutes)
+        (-δ.remaining_seconds) (-δ.microseconds) :=
+  interval_model I v hl hv δ nδ hk
+
+/-- **`Date.add` / `subtract` / `± Duration`, from the source**: `add_duration(date(y, m, d), years, months, weeks, days)`
+    re-wrapped in the class; `subtract` negates the four keywords; a Duration travels as `years, months, weeks,
+    remaining_days` -/
+theorem date_source_eq_model (D : DateInst) (n : Int) (hl : DLinked D n) (y mo wk d : Int) (dur : Dur) :
+    dinterp (date_add D y mo wk d) = dateAdd n y mo wk d ∧
+    dinterp (date_subtract D y mo wk d) = dateSubtract n y mo wk d ∧
+    dinterp (date_add_timedelta D (opOfDur dur)) = dateAddDur n dur ∧
+    dinterp (date_subtract_timedelta D (opOfDur dur)) = dateSubDur n dur := by
+  refine ⟨date_add_eq D n hl _ _ _ _, ?_, (date_duration_model D n hl dur).1, (date_duration_model D n hl dur).2⟩
+  rw [date_subtract_eq, date_add_eq D n hl]; rfl
+
+/-- `Date.__add__` / `__sub__`: operand kinds -/
+theorem date_operators_source_eq_model (D : DateInst) (o : Operand) :
+    date_op_add D o = (if !isDelta o.kind then .ok .notImplemented else Except.map Res.value (date_add_timedelta D o)) ∧
+    date_op_sub D o =
+      (if isDelta o.kind then Except.map Res.value (date_subtract_timedelta D o)
+       else if o.kind = .date ∨ o.kind = .datetime ∨ o.kind = .pendulumDT then
+         .ok (.interval (.date o.year o.month o.day) (.as_date .self) false)
+       else .ok .notImplemented) := date_op_eq D o
+
+/-! non-vacuity: Jan 31 + 1 month on the generated code, DateTime and Date -/
+example (n : Int) : DLinked (dinstOf n) n := dlinked_dinstOf n
+example : (dt_add (instOf ⟨.naive, fieldsToWall 2024 1 31 5, false⟩) 0 1 0 0 0 0 (.int 0) 0).toOption
+    = some (.create 2024 2 29 0 0 0 5 true) := by decide +kernel
+example : (date_add (dinstOf 19753) 0 1 0 0).toOption = some (.date 2024 2 29) := by decide +kernel
 
 end Pendulum.Props.C04
